@@ -316,7 +316,8 @@ func buildFixture() (*fixtureT, error) {
 	signer := types.MakeSigner(big.NewInt(0))
 	// three independent senders, so that t1, t2, t3 are valid on every branch in any combination
 	keys := []string{"b71c71a67e1177ad4e901695e1b4b9ee17ae16c6668d313eac2f96dbcda3f291",
-		"8a1f9a8f95be41cd7ccb6168179afb4504aefe388d1e14474d32c45c72ce7b7a", "49a7b37aa6f6645917e7b807e9d1c00d4fa71f18343b0d4122a4d2df64dd6fee"}
+		"8a1f9a8f95be41cd7ccb6168179afb4504aefe388d1e14474d32c45c72ce7b7a", "49a7b37aa6f6645917e7b807e9d1c00d4fa71f18343b0d4122a4d2df64dd6fee",
+		"c5ed5d9b9c957be2baa01c16310aa4d1f8bf8e6dea7f0ff7a0d9ac8a4c4d1c2a"}
 	alloc := core.GenesisAlloc{}
 	for i, hk := range keys {
 		k, err := crypto.HexToECDSA(hk)
@@ -392,14 +393,15 @@ func buildFixture() (*fixtureT, error) {
 		extra        byte
 		tx           string
 	}
-	for _, s := range []spec{{"A1", "G", 0xa1, "t1"}, {"A2", "A1", 0xa2, "t2"}, {"A3", "A2", 0xa3, ""},
-		{"B1", "G", 0xb1, "t1"}, {"B2", "B1", 0xb2, ""}, {"B3", "B2", 0xb3, "t3"}, {"B4", "B3", 0xb4, ""}} {
+	// t1 is shared by A1 and B1 (same height), t4 by B2 and A3 (different heights: A3 lies above a head B2)
+	for _, s := range []spec{{"A1", "G", 0xa1, "t1"}, {"A2", "A1", 0xa2, "t2"}, {"A3", "A2", 0xa3, "t4"}, {"A4", "A3", 0xa4, ""},
+		{"B1", "G", 0xb1, "t1"}, {"B2", "B1", 0xb2, "t4"}, {"B3", "B2", 0xb3, "t3"}, {"B4", "B3", 0xb4, ""}} {
 		if err := build(s.name, s.parent, s.extra, s.tx); err != nil {
 			return nil, err
 		}
 	}
 	// further blocks: one valid child without transactions for every valid block
-	for i, p := range []string{"G", "A1", "A2", "A3", "B1", "B2", "B3", "B4"} {
+	for i, p := range []string{"G", "A1", "A2", "A3", "A4", "B1", "B2", "B3", "B4"} {
 		if err := build("F_"+p, p, byte(0xf0+i), ""); err != nil {
 			return nil, err
 		}
